@@ -20,6 +20,16 @@
 //!     evaluation of its 4-tuple fold/reduce, against `parNearest` over several split trees.
 //! * `mjsplit <seed> <n> <wmax> <k> {<num> <den>}*k`  the real `compute_split_positions` (hook),
 //!     against `mjSplit` over several split trees.
+//! * `frame <dim> <n> <seed> <shape> <digest|->`  the oriented-bounding-box frame itself (hook
+//!     `obb_frame`: matrix + rotated points) on LARGE (16 385 … 140 003 points, i.e. 5 … 35 blocks of the
+//!     blocked inertia sums) exactly / nearly isotropic integer clouds whose centroid is k/n with n not
+//!     a power of two, in construction order and in shuffled orders.  The matrix BITS are compared
+//!     across pool sizes: `same <digest>` / `differs@T=<t> …`.  The model's claim – the frame is a
+//!     function of the input only (the block sums are added in block order; each entry is then a fixed
+//!     expression, cf. `inertia_entry_schedule_free` for the exact case) – is the echo `same <digest>`;
+//!     a difference is a model/implementation disagreement.  Whenever the frame differs, Rib,
+//!     HilbertCurve and ZCurve are run on the cloud (and on re-shuffles of it) under the differing
+//!     pools; differing ids are the oracle failure `k6-obb-frame-depends-on-pool`.
 
 use crate::common::*;
 use coupe::rayon::prelude::*;
@@ -754,6 +764,26 @@ pub fn generate(ctx: &mut Ctx) {
         run_op(ctx, &format!("dual {} {} {} {} {} -", kind, nx, ny, nz, seed));
     }
     run_op(ctx, "dual tri 1 1 1 1 -");
+    // ---- the frame itself, on large near-isotropic clouds ------------------------
+    // sizes just above / far above the 4096-point blocks of the inertia sums, never multiples of
+    // powers of two; >= 5 blocks (16 385 points) are needed before the association of the block sums
+    // can depend on the pool at all
+    let sizes: &[usize] = if quick { &[16_385, 16_422, 20_001, 32_771, 65_548, 70_001] } else { &[16_385, 16_422, 20_001, 32_771, 40_963, 65_548, 70_001, 131_077, 140_003] };
+    for c in 0..ctx.budget(36, 160) {
+        let dim = 2 + c % 2;
+        let n = sizes[(c / 2) % sizes.len()];
+        let shape = ctx.rng.usize(FRAME_SHAPES);
+        // the low 4 bits choose the order of the points (0: construction order), the rest the cloud
+        let cloud_seed = ctx.rng.below(1 << 24) << 4;
+        let orders = if quick { 2 } else { 3 };
+        for o in 0..orders {
+            let seed = cloud_seed | if o == 0 && ctx.rng.chance(1, 3) { 0 } else { 1 + ctx.rng.below(15) };
+            run_op(ctx, &format!("frame {} {} {} {} -", dim, n, seed, shape));
+        }
+    }
+    for (dim, n) in [(2usize, 0usize), (2, 1), (3, 2), (2, 4097), (3, 8193), (2, 16_384)] {
+        run_op(ctx, &format!("frame {} {} {} {} -", dim, n, 17, 0));
+    }
     // ---- malformed stream: both sides answer `bad-op` --------------------------
     for m in [
         "parsum lit 3 1 2",
@@ -765,6 +795,8 @@ pub fn generate(ctx: &mut Ctx) {
         "part rcb g 4 10 0 0 1 1 1 -",
         "part rcb q 2 10 0 0 1 1 1 -",
         "dual tri 3 3",
+        "frame 4 100 1 0 -",
+        "frame 2 100 1 99 -",
         "frobnicate 1 2 3",
     ] {
         ctx.count("malformed");
@@ -776,6 +808,349 @@ pub fn generate(ctx: &mut Ctx) {
         ps,
         budget_reps(ctx)
     ));
+}
+
+// ------------------------------------------------------------------ the frame op
+
+const FRAME_SHAPES: usize = 6;
+
+/// Clouds for the `frame` op: exactly or nearly isotropic integer clouds (so that the principal
+/// axis is decided by the last bits of the inertia matrix), made of `n - e` points of a symmetric
+/// body plus `e` (1…3) off-centre points, so that the centroid is `centre + k/n` – not
+/// representable when `n` is not a power of two – and every offset `point - centroid` rounds.
+/// The cloud depends on `seed >> 4`, the order of its points on `seed & 15` (0: construction
+/// order, i.e. sorted by norm / row by row / orbit by orbit; otherwise shuffled).
+fn iso_cloud(dim: usize, n: usize, seed: u64, shape: usize) -> Vec<[i64; 3]> {
+    let mut rng = Rng::new((seed >> 4) ^ 0xf4a3e);
+    let extras = if n == 0 { 0 } else { (1 + (seed >> 4) % 3).min(n as u64) as usize };
+    let body = n - extras;
+    let mut pts: Vec<[i64; 3]> = Vec::with_capacity(n);
+    let lattice = |r: i64| -> Vec<[i64; 3]> {
+        let mut v = vec![];
+        let zr = if dim == 3 { r } else { 0 };
+        for z in -zr..=zr {
+            for y in -r..=r {
+                for x in -r..=r {
+                    v.push([x, y, z]);
+                }
+            }
+        }
+        v
+    };
+    let norm2 = |p: &[i64; 3]| p[0] * p[0] + p[1] * p[1] + p[2] * p[2];
+    // all signed permutations of a point: 8 images in 2-D, 48 in 3-D (duplicates kept: the
+    // multiset is what makes the inertia matrix a multiple of the identity)
+    let orbit = |d: [i64; 3], out: &mut Vec<[i64; 3]>| {
+        let perms: &[[usize; 3]] = if dim == 2 { &[[0, 1, 2], [1, 0, 2]] } else { &[[0, 1, 2], [0, 2, 1], [1, 0, 2], [1, 2, 0], [2, 0, 1], [2, 1, 0]] };
+        for pm in perms {
+            for s in 0..(1usize << dim) {
+                let mut p = [0i64; 3];
+                for k in 0..dim {
+                    p[k] = if s >> k & 1 == 1 { -d[pm[k]] } else { d[pm[k]] };
+                }
+                out.push(p);
+            }
+        }
+    };
+    let orbit_len = if dim == 2 { 8 } else { 48 };
+    match shape {
+        // disc / ball: the `body` lattice points nearest to the origin
+        0 | 5 => {
+            let mut r = 1i64;
+            while (2 * r + 1).pow(dim as u32) < 2 * body as i64 + 8 {
+                r += 1;
+            }
+            let mut v = lattice(r);
+            v.sort_by_key(|p| (norm2(p), p[2], p[1], p[0]));
+            v.truncate(body);
+            pts = v;
+        }
+        // square / cube, row by row
+        1 => {
+            let mut r = 0i64;
+            while (2 * r + 1).pow(dim as u32) < body as i64 {
+                r += 1;
+            }
+            let mut v = lattice(r);
+            v.truncate(body);
+            pts = v;
+        }
+        // full signed-permutation orbits of random points: exactly isotropic
+        2 => {
+            while pts.len() + orbit_len <= body {
+                let d = [rng.range(0, 300), rng.range(0, 300), rng.range(0, 300)];
+                orbit(d, &mut pts);
+            }
+        }
+        // ring / shell of full orbits
+        3 => {
+            while pts.len() + orbit_len <= body {
+                let d = [rng.range(0, 300), rng.range(0, 300), if dim == 3 { rng.range(0, 300) } else { 0 }];
+                let m = norm2(&d);
+                if m <= 300 * 300 && m >= 270 * 270 {
+                    orbit(d, &mut pts);
+                }
+            }
+        }
+        // independent, identically distributed coordinates: isotropic only statistically
+        _ => {
+            for _ in 0..body {
+                pts.push([rng.range(-500, 500), rng.range(-500, 500), if dim == 3 { rng.range(-500, 500) } else { 0 }]);
+            }
+        }
+    }
+    // fill up with points at the centre (they do not disturb the symmetry), then the off-centre ones
+    while pts.len() < body {
+        pts.push([0, 0, 0]);
+    }
+    for e in 0..extras {
+        let mut p = [0i64; 3];
+        p[e % dim] = 1 + e as i64;
+        pts.push(p);
+    }
+    // translation: none, small, or large (shape 5: a far-away disc, the centroid then has few
+    // fraction bits left)
+    let tr: [i64; 3] = if shape == 5 {
+        [100_003, -77_777, 31_337]
+    } else {
+        match (seed >> 4) % 3 {
+            0 => [0, 0, 0],
+            1 => [3, -2, 5],
+            _ => [1000, 777, -333],
+        }
+    };
+    for p in pts.iter_mut() {
+        for k in 0..dim {
+            p[k] += tr[k];
+        }
+    }
+    if seed & 15 != 0 {
+        Rng::new(seed ^ 0x0bde).shuffle(&mut pts);
+    }
+    pts
+}
+
+#[derive(Clone, PartialEq, Eq, Debug)]
+enum FrameOut {
+    /// matrix bits, digest of the rotated points
+    Frame(Vec<u64>, u64),
+    None,
+    Panic(String),
+}
+
+impl FrameOut {
+    fn digest(&self) -> String {
+        match self {
+            FrameOut::Frame(m, d) => format!("{:016x}", fnv(m.iter().cloned().chain(std::iter::once(*d)))),
+            FrameOut::None => "none".into(),
+            FrameOut::Panic(c) => format!("panic:{:08x}", fnv_str(c) as u32),
+        }
+    }
+}
+
+macro_rules! frame_full_dim {
+    ($name:ident, $D:expr, $P:ty) => {
+        fn $name(pts: &[[i64; 3]], threads: usize) -> FrameOut {
+            let points: Vec<$P> = pts
+                .iter()
+                .map(|p| {
+                    let mut q = <$P>::zeros();
+                    for k in 0..$D {
+                        q[k] = p[k] as f64;
+                    }
+                    q
+                })
+                .collect();
+            match in_pool(threads, move || coupe::verif::geometry::obb_frame::<$D>(&points)) {
+                Caught::Ok(Some((mapped, m))) => FrameOut::Frame(
+                    m.iter().map(|x| x.to_bits()).collect(),
+                    fnv(mapped.iter().flat_map(|p| p.iter().map(|x| x.to_bits()).collect::<Vec<_>>())),
+                ),
+                Caught::Ok(None) => FrameOut::None,
+                Caught::Panic(m) => FrameOut::Panic(panic_sig(&m)),
+                Caught::Hang => FrameOut::Panic("hang".into()),
+            }
+        }
+    };
+}
+
+frame_full_dim!(frame_full_2d, 2, Point2D);
+frame_full_dim!(frame_full_3d, 3, Point3D);
+
+fn frame_full(pts: &[[i64; 3]], dim: usize, threads: usize) -> FrameOut {
+    if dim == 2 {
+        frame_full_2d(pts, threads)
+    } else {
+        frame_full_3d(pts, threads)
+    }
+}
+
+/// Largest absolute difference between two frame matrices (`inf` when they are not comparable).
+fn frame_distance(a: &FrameOut, b: &FrameOut) -> f64 {
+    match (a, b) {
+        (FrameOut::Frame(x, _), FrameOut::Frame(y, _)) if x.len() == y.len() => {
+            x.iter().zip(y).map(|(p, q)| (f64::from_bits(*p) - f64::from_bits(*q)).abs()).fold(0.0, |m, d| if d > m || d.is_nan() { d } else { m })
+        }
+        _ => f64::INFINITY,
+    }
+}
+
+/// The frame of `pts` depends on the pool (seen under `t_diff` threads): look for the failing
+/// input of the PROPERTY – a cloud on which Rib / HilbertCurve / ZCurve ids differ between one
+/// thread and several.  Whether an ulp in the inertia matrix changes an id depends on the order of
+/// the points, so re-shuffles of the cloud are screened with the (cheap) frame first and the
+/// partitioners are run on the orders whose frames differ.
+fn find_id_flip(pts: &[[i64; 3]], dim: usize, t_diff: usize, seed: u64, max_shuffles: usize, secs: u64) -> (Option<String>, usize, usize) {
+    let t0 = std::time::Instant::now();
+    let pools: Vec<usize> = {
+        let mut v = vec![t_diff, 16, 2, 4];
+        v.dedup();
+        v.retain(|t| *t > 1);
+        v
+    };
+    let algos: [(&str, usize, usize); 3] = [("hilbert", 7, if dim == 2 { 16 } else { 12 }), ("zcurve", 7, if dim == 2 { 3 } else { 2 }), ("rib", 3, 0)];
+    let mut screened = 0usize;
+    let mut tried = 0usize;
+    for s in 0..max_shuffles {
+        if t0.elapsed().as_secs() >= secs {
+            break;
+        }
+        let mut c = pts.to_vec();
+        if s > 0 {
+            Rng::new(seed.wrapping_mul(31).wrapping_add(s as u64) ^ 0x51f1e).shuffle(&mut c);
+        }
+        screened += 1;
+        let f1 = frame_full(&c, dim, 1);
+        let mut worst: Option<(usize, f64)> = None;
+        for &p in &pools {
+            let f = frame_full(&c, dim, p);
+            if f != f1 {
+                let d = frame_distance(&f1, &f);
+                if worst.map(|w| d > w.1).unwrap_or(true) {
+                    worst = Some((p, d));
+                }
+            }
+        }
+        // (even a last-bit difference of the matrix moves a point across a cell boundary now and
+        // then, so every order whose frames differ is run through the partitioners, the most
+        // sensitive one first, until the time is used up)
+        let Some((p, d)) = worst else { continue };
+        tried += 1;
+        let cloud = Cloud { ws: vec![1; c.len()], exact_frame: false, pts: c };
+        for (algo, p1, p2) in algos {
+            let prm = Params { algo: algo.to_string(), p1, p2 };
+            let reference = run_algo(&cloud, dim, &prm, 1);
+            for &q in &[p, p, 16] {
+                let o = run_algo(&cloud, dim, &prm, q);
+                if o != reference {
+                    let what = match (&reference, &o) {
+                        (Outcome::Ids(a), Outcome::Ids(b)) => format!("{} of {} ids differ", a.iter().zip(b).filter(|(x, y)| x != y).count(), a.len()),
+                        (a, b) => format!("outcome {} vs {}", a.digest(), b.digest()),
+                    };
+                    return (
+                        Some(format!(
+                            "{} ids under {} threads vs 1 thread: {} (points in {}; the OBB matrices of this order differ by {:e} between the pools)",
+                            algo,
+                            q,
+                            what,
+                            if s == 0 { "the order of the op".to_string() } else { format!("re-shuffle #{} of the op's cloud", s) },
+                            d
+                        )),
+                        screened,
+                        tried,
+                    );
+                }
+            }
+        }
+    }
+    (None, screened, tried)
+}
+
+fn op_frame(ctx: &mut Ctx, op: &str, t: &[&str]) {
+    if t.len() != 6 {
+        return bad(ctx, op);
+    }
+    let p = |i: usize| t[i].parse::<u64>().ok();
+    let (Some(dim), Some(n), Some(seed), Some(shape)) = (p(1), p(2), p(3), p(4)) else {
+        return bad(ctx, op);
+    };
+    if !(dim == 2 || dim == 3) || n > 400_000 || shape as usize >= FRAME_SHAPES {
+        return bad(ctx, op);
+    }
+    let (dim, n, shape) = (dim as usize, n as usize, shape as usize);
+    let pts = iso_cloud(dim, n, seed, shape);
+    let exact = exact_frame(&pts, dim);
+    let reference = frame_full(&pts, dim, 1);
+    let digest = reference.digest();
+    let pools = pool_sizes(ctx.quick());
+    let reps = ctx.budget(2, 3);
+    let mut first_diff: Option<(usize, usize, FrameOut)> = None;
+    let mut ndiff = 0usize;
+    let mut runs = 0usize;
+    for &th in &pools {
+        for rep in 0..reps {
+            if th == 1 && rep == 0 {
+                continue;
+            }
+            let f = frame_full(&pts, dim, th);
+            runs += 1;
+            if f != reference {
+                ndiff += 1;
+                if first_diff.is_none() {
+                    first_diff = Some((th, rep, f));
+                }
+            }
+        }
+    }
+    ctx.count("op:frame");
+    ctx.count(&format!("frame:shape-{}", shape));
+    ctx.count(&format!(
+        "large:frame:{}",
+        if n <= 16_384 { "<=4-blocks" } else if n < 32_768 { "5..8-blocks" } else if n < 100_000 { "9..24-blocks" } else { ">24-blocks" }
+    ));
+    ctx.count(if seed & 15 == 0 { "frame:order-construction" } else { "frame:order-shuffled" });
+    ctx.count(if exact { "frame:input-exact" } else { "frame:input-inexact-centroid" });
+    ctx.count(match &reference {
+        FrameOut::Frame(m, _) => {
+            if m.iter().all(|b| [0.0, 1.0, -1.0].contains(&f64::from_bits(*b))) {
+                "frame:kind-axis-permutation"
+            } else {
+                "frame:kind-rotation"
+            }
+        }
+        FrameOut::None => "frame:kind-none",
+        FrameOut::Panic(_) => "frame:kind-panic",
+    });
+    let prefix = t[..5].join(" ");
+    match first_diff {
+        None => {
+            ctx.count("frame:same");
+            ctx.record(format!("{} {}", prefix, digest), format!("same {}", digest), n > 16_384 && !exact);
+        }
+        Some((th, rep, f)) => {
+            ctx.count("frame:differs");
+            let d = frame_distance(&reference, &f);
+            let out = format!("differs@T={} rep={} runs={}/{} matrix-distance={:e} {}", th, rep, ndiff, runs, d, f.digest());
+            let idx = ctx.record(format!("{} {}", prefix, digest), out, true);
+            // the failing input of the property: ids that differ between pools (search bounded in
+            // time, and abandoned once a few have been found in this run)
+            let found = ctx.hist.get("oracle_fail:k6-obb-frame-depends-on-pool").copied().unwrap_or(0);
+            if found < 3 {
+                let (hit, screened, tried) = find_id_flip(&pts, dim, th, seed, if ctx.quick() { 400 } else { 1500 }, if ctx.quick() { 8 } else { 30 });
+                ctx.count("frame:id-flip-searches");
+                match hit {
+                    Some(what) => ctx.fail(idx, "k6-obb-frame-depends-on-pool", what),
+                    None => {
+                        ctx.count("frame:id-flip-not-found");
+                        ctx.notes.push(format!(
+                            "frame differs under {} threads on `{}` but no id flip was found in {} orders ({} run through the partitioners)",
+                            th, prefix, screened, tried
+                        ));
+                    }
+                }
+            }
+        }
+    }
 }
 
 // ------------------------------------------------------------------ data shared with the driver
@@ -807,6 +1182,7 @@ pub fn run_op(ctx: &mut Ctx, op: &str) {
         Some("bbox") => op_bbox(ctx, op, &t),
         Some("rcbsplit") => op_rcbsplit(ctx, op, &t),
         Some("mjsplit") => op_mjsplit(ctx, op, &t),
+        Some("frame") => op_frame(ctx, op, &t),
         _ => bad(ctx, op),
     }
 }
